@@ -74,8 +74,39 @@ def _case_of(e):
     return c
 
 
+_EXE = [None]
+
+
+def _private_harness(wd):
+    """Other checks rebuild harness/target/release/... while this one runs; a worker that re-executes
+    itself must not lose its binary, so this run uses a private copy."""
+    import shutil
+    dst = os.path.join(wd, "harness-bin")
+    for _ in range(60):
+        try:
+            shutil.copy2(C.HARNESS, dst)
+            os.chmod(dst, 0o755)
+            _EXE[0] = dst
+            return
+        except OSError:
+            time.sleep(1)
+    raise C.ToolError("harness binary not available")
+
+
+def _harness(args, timeout=3000):
+    import subprocess
+    p = subprocess.run([_EXE[0]] + args, stdout=subprocess.PIPE, stderr=subprocess.PIPE, text=True,
+                       timeout=timeout)
+    if p.returncode != 0:
+        C.log(p.stderr[-2000:])
+        raise C.ToolError("harness %s exited %d" % (args[0], p.returncode))
+    if p.stderr.strip():
+        C.log("C03: harness: " + p.stderr.strip()[-300:])
+    return p.stdout
+
+
 def _run_inputs(inp, outp, chunk, family_default="garbage"):
-    C.run_harness(["doc-cost-run", "--in", inp, "--out", outp, "--limit-ms", str(LIMIT_MS),
+    _harness(["doc-cost-run", "--in", inp, "--out", outp, "--limit-ms", str(LIMIT_MS),
                    "--jobs", str(JOBS), "--chunk", str(chunk), "--family-default", family_default],
                   timeout=3000)
 
@@ -86,6 +117,7 @@ def run(prop, tier):
     wd = C.workdir("c03")
     dense = tier == "thorough"
     try:
+        _private_harness(wd)
         # 1. model check Cost.tla, emit the family members
         replay = os.path.join(wd, "families.replay")
         mc = C.run_tlc("MC_Cost", "MC_Cost_%s.cfg" % tier, "c03mc", to_file=replay, workers=8,
@@ -104,8 +136,8 @@ def run(prop, tier):
         # 3. garbage
         garbage = os.path.join(wd, "garbage.ndjson")
         n_garbage = int(os.environ.get("VERIF_C03_GARBAGE", GARBAGE[tier]))   # development aid
-        C.run_harness(["doc-cost-garbage", "--seed", str(C.seed()), "--count", str(n_garbage),
-                       "--out", garbage])
+        _harness(["doc-cost-garbage", "--seed", str(C.seed()), "--count", str(n_garbage),
+                  "--out", garbage])
         gar_ev = os.path.join(wd, "garbage.ev")
         _run_inputs(garbage, gar_ev, 256)
         C.log("C03: %d garbage inputs run in %.1fs" % (n_garbage, time.time() - t1))
@@ -205,6 +237,7 @@ def replay(prop, path):
     out.level = "exploration"
     wd = C.workdir("c03r")
     try:
+        _private_harness(wd)
         v = json.load(open(path))
         case = v.get("case", v)
         inp = os.path.join(wd, "r.in")
